@@ -624,7 +624,7 @@ def c_matrix(ex, st, args, kwargs, n):
             sz = (1, 1)
         # a constant matrix is symmetric in every 's' block
         return L.new_matrix(ex, st, sz[0], sz[1], t, site=n.lineno,
-                            symval=z3.IntVal(10**9))
+                            symval=z3.Int('SYM_ALL'))
     if isinstance(x, Ref) and st.heap[x.oid].kind in ('list', 'range'):
         ln = L.iter_len(ex, st, x) if st.heap[x.oid].kind == 'range' else \
             L.sym_len(ex, st, x)
